@@ -2,7 +2,7 @@
 C12 driver: replays one history (limit, two readers, instruments, views, ops) on the model and evaluates the Spec
 reference (`Spec.refPoints`, `Spec.refPointsDelta`, `Spec.limitOK`, `Spec.conserved`, `Spec.perKeyOK`,
 `Spec.bucketsConserved`, `Spec.psumDeltaOK`, `Spec.psumDeltaConserved`, `Spec.keysOK`) on the observed collections.
-  hist <gen> <limit> <tps> <insts> <views> | m j set x | o j set x | k | c r … => <r>@<metric>;<metric> …
+  hist <gen> <limit> <tps> <insts> <views> | m j set x | o j set x | k | c r | p j set x | r j set x … => <r>@<metric>;<metric> …
 -/
 import Otel.Base.Wire
 import Otel.C12.Model
@@ -74,6 +74,10 @@ def renderSet (s : CSet) : String :=
 
 def parseOp : List String → Option Op
   | ["m", j, a, x] => do pure (.meas (← parseNat j) (← parseSet a) (← parseInt x))
+  -- forced-interleaving leg: `p` (parks in the reservoir provider) and `r` (races with it) are measurements; with
+  -- atomic critical sections the racing one takes effect after the parked one, i.e. in line order
+  | ["p", j, a, x] => do pure (.meas (← parseNat j) (← parseSet a) (← parseInt x))
+  | ["r", j, a, x] => do pure (.meas (← parseNat j) (← parseSet a) (← parseInt x))
   | ["o", j, a, x] => do pure (.obs (← parseNat j) (← parseSet a) (← parseInt x))
   | ["k"] => some .clear
   | ["c", r] => do pure (.col (← parseNat r))
@@ -258,16 +262,22 @@ def namedOK (L : Nat) (ws : List (Agg × Temporality × Name × String × List (
 
 def tagIf (b : Bool) (t : String) : List String := if b then [t] else []
 
-def stepLine (_ : Unit) (toks : List String) : Unit × Option Verdict :=
-  let (inp, obs) := splitObs toks
-  match inp with
-  | "hist" :: _ :: lim :: tps :: istr :: vstr :: rest =>
-    let r : Option Verdict := do
-      let L := parseLimit lim
-      let tps ← parseTps tps
-      let insts ← (istr.splitOn ",").mapM parseInst
-      let views ← if vstr == "-" then some [] else (vstr.splitOn ",").mapM parseView
-      let ops ← (splitBar rest).mapM parseOp
+/-- the sequential orders a line stands for: a measurement `p` (parked between the limiter decision and the
+insertion of its set) immediately followed by `r` (made meanwhile by another goroutine) are two CONCURRENT
+operations — with atomic critical sections the outcome is that of `p, r` or of `r, p` -/
+def linearizations : List (List String) → List (List (List String))
+  | [] => [[]]
+  | a :: b :: rest =>
+    if a.head? == some "p" && b.head? == some "r" then
+      let tails := linearizations rest
+      tails.map (fun t => a :: b :: t) ++ tails.map (fun t => b :: a :: t)
+    else (linearizations (b :: rest)).map (a :: ·)
+  | [a] => [[a]]
+
+/-- judge the observed records against ONE sequential order of the operations -/
+def judge (L : Nat) (tps : List Temporality) (insts : List Inst) (views : List View) (obs : List String)
+    (opToks : List (List String)) : Option Verdict := do
+      let ops ← opToks.mapM parseOp
       let model := Sys.run L tps views insts ops
       let sys0 := Sys.init L tps views insts
       let mrecs := model.recs.map fun rc =>
@@ -332,6 +342,30 @@ def stepLine (_ : Unit) (toks : List String) : Unit × Option Verdict :=
                nontrivial := mrecs.any fun rc => !rc.2.isEmpty,
                branches := if tags.isEmpty then "-" else ",".intercalate tags,
                model := " ".intercalate mstr }
+
+def stepLine (_ : Unit) (toks : List String) : Unit × Option Verdict :=
+  let (inp, obs) := splitObs toks
+  match inp with
+  | "hist" :: _ :: lim :: tps :: istr :: vstr :: rest =>
+    let r : Option Verdict := do
+      let L := parseLimit lim
+      let tps ← parseTps tps
+      let insts ← (istr.splitOn ",").mapM parseInst
+      let views ← if vstr == "-" then some [] else (vstr.splitOn ",").mapM parseView
+      let variants := linearizations (splitBar rest)
+      let vs ← variants.mapM (judge L tps insts views obs)
+      let forced := variants.length > 1
+      let tag := fun (v : Verdict) (t : String) => { v with branches := if v.branches == "-" then t else v.branches ++ "," ++ t }
+      -- the outcome must be that of SOME sequential order: prefer the line order, then any order the model and
+      -- the oracle accept; otherwise report against the line order
+      match vs.head? with
+      | none => none
+      | some v0 =>
+        if !forced then pure v0
+        else if v0.agree && v0.spec == "ok" then pure (tag v0 "forced-race")
+        else match vs.find? (fun v => v.agree && v.spec == "ok") with
+          | some v => pure (tag v "forced-race,racer-first")
+          | none => pure (tag v0 "forced-race")
     ((), r)
   | _ => ((), none)
 
